@@ -53,11 +53,6 @@ func genCase(t *rapid.T) c05Case {
 	return c
 }
 
-const (
-	fRouteLT     = "C05-F1" // inherited C01-F1: calendar rule drops the bound's own period
-	fRouteNotBtw = "C05-F2" // inherited C01-F2: NOT BETWEEN with descending bounds drops tables
-)
-
 // assignsKey reports whether the statement assigns the sharding column of t,
 // and whether every such assignment is the no-op "k = k" (which does not give
 // the column a new value, so the property does not demand its rejection).
@@ -293,56 +288,9 @@ func keyOfValue(l shardfix.Layout, v sqlmodel.Value) shardsim.Key {
 	return shardsim.Key{I: v.I}
 }
 
-func passes(c c05Case) bool {
-	ev := evaluate(c)
-	return ev.skip == "" && ev.violation == ""
-}
-
-func disabled(id string) bool { return strings.Contains(os.Getenv("VERIF_C05_DISABLE"), id) }
-
-// classify recognises the two inherited routing defects: the failure must
-// disappear when exactly the tables the defect drops are emptied on both sides.
-func classify(c c05Case, ev evaluation) (string, string) {
-	if ev.class != "rows" && ev.class != "affected" {
-		return "", ""
-	}
-	try := func(id, what string, drop map[int]bool) (string, string) {
-		if disabled(id) || len(drop) == 0 {
-			return "", ""
-		}
-		d, changed := ev.w.DropRows(c.Data, drop)
-		if !changed {
-			return "", ""
-		}
-		nc := c
-		nc.Data = d
-		if passes(nc) {
-			return id, what
-		}
-		return "", ""
-	}
-	if id, what := try(fRouteLT, "calendar rule drops the bound's own period", ev.w.DroppedLT(ev.st)); id != "" {
-		return id, what
-	}
-	if id, what := try(fRouteNotBtw, "NOT BETWEEN with descending bounds drops tables", ev.w.DroppedNB(ev.st)); id != "" {
-		return id, what
-	}
-	// both at once
-	drop := map[int]bool{}
-	for k := range ev.w.DroppedLT(ev.st) {
-		drop[k] = true
-	}
-	n := len(drop)
-	for k := range ev.w.DroppedNB(ev.st) {
-		drop[k] = true
-	}
-	if n > 0 && len(drop) > n && !disabled(fRouteLT) && !disabled(fRouteNotBtw) {
-		if id, _ := try(fRouteLT, "", drop); id != "" {
-			return id, "combination of " + fRouteLT + "+" + fRouteNotBtw
-		}
-	}
-	return "", ""
-}
+// No finding of C05 is open: the two routing defects it inherited from C01
+// (C05-F1/F2) are repaired in /repo, their witnesses are expect-pass
+// regression cases, and every failure is reported as a violation.
 
 func checkCase(c c05Case) (o pbt.Outcome) {
 	ev := evaluate(c)
@@ -374,10 +322,6 @@ func checkCase(c c05Case) (o pbt.Outcome) {
 	}
 	o.NonTrivial = ev.touchKey || (ev.rejected == "" && ev.changed >= 1 && ev.unchanged >= 1)
 	if ev.violation == "" {
-		return
-	}
-	if id, what := classify(c, ev); id != "" {
-		o.Known, o.KnownWhat = id, what+" | "+c.SQL+": "+ev.violation
 		return
 	}
 	o.Violation = fmt.Sprintf("[%s] %s: %s", ev.class, c.SQL, ev.violation)
